@@ -246,7 +246,7 @@ def Par.core (P : Par) (ex : Exec) : Terminal → Outcome
 
 /-- `Ordering`-based selections of src/par_iter.rs -/
 def selMinBy (key : Val → Nat) (x y : Val) : Val := if key x ≤ key y then x else y   -- Less | Equal => x
-def selMaxBy (key : Val → Nat) (x y : Val) : Val := if key x ≥ key y then x else y   -- Greater | Equal => x
+def selMaxBy (key : Val → Nat) (x y : Val) : Val := if key x > key y then x else y   -- Greater => x, Less | Equal => y (the last maximal element, as Iterator::max_by)
 
 /-- all terminals: the provided methods of the trait reduce to the core ones -/
 def Par.term (P : Par) (ex : Exec) : Terminal → Outcome
